@@ -257,6 +257,33 @@ fn real_group_law<C: RealCurve>(ctx: &Ctx, rv: &RealV<C>) {
             },
         );
     }
+    // long slices: every grid length (powers of two and neighbours) x a few starting offsets, cycling through the whole alphabet
+    let lens: Vec<usize> = super::c01::long_slice_lengths().into_iter().filter(|&l| l <= ctx.tier.pick(300, 1026)).collect();
+    let rad: Vec<u64> = vec![lens.len() as u64, 3];
+    ctx.sweep(
+        &format!("{}.batch_normalization.long", name),
+        crate::infra::space(&rad),
+        |i| {
+            let d = unrank(i, &rad);
+            json!({"length": lens[d[0]], "offset": d[1] * 7})
+        },
+        |i| {
+            let d = unrank(i, &rad);
+            let len = lens[d[0]];
+            let idx: Vec<usize> = (0..len).map(|j| (d[1] * 7 + j * [1, 3, 5][d[1]]) % v.len()).collect();
+            let mut s: Vec<C::Proj> = idx.iter().map(|&k| v[k].0).collect();
+            guard(|| C::Proj::batch_normalization(&mut s)).map_err(Fail::new)?;
+            for (j, (k, out)) in idx.iter().zip(s.iter()).enumerate() {
+                if C::pt_of(out) != pts[v[*k].1].p {
+                    return Err(Fail::new(format!("{}: batch_normalization changed the point at index {} (slice length {})", name, j, len)));
+                }
+                if !out.is_normalized() {
+                    return Err(Fail::new(format!("{}: entry {} not normalized after batch_normalization (slice length {})", name, j, len)));
+                }
+            }
+            Ok(if len > 128 { "length > 128" } else { "length <= 128" })
+        },
+    );
 }
 
 // ------------------------------------------------------------------------------------------------
